@@ -764,6 +764,10 @@ class Translator:
         return False
 
     def class_of(self, d):
+        c = self._class_of(d)
+        return self.u.get('class_alias', {}).get(c, c)     # a nested class dumped on its own is known by its short name: map it to the qualified one
+
+    def _class_of(self, d):
         pid = self.parent.get(d['id'])
         if pid and pid in self.qname:
             return self.qname[pid]
